@@ -106,7 +106,9 @@ func (fx *Fx) hardwired(st *State, fn *types.Func, call *ast.CallExpr, recv *Val
 			fx.branch(st, "(not "+done+")", func(t *State) {
 				t.setHeap("ONCE", "(Array Int Bool)", fmt.Sprintf("(store %s %s true)", t.heap("ONCE", "(Array Int Bool)"), mu))
 				if isLit {
+					fx.onceStack = append(fx.onceStack, mu)
 					fx.inlineLit(t, lit, nil)
+					fx.onceStack = fx.onceStack[:len(fx.onceStack)-1]
 				} else {
 					f := fx.eval(t, call.Args[0])
 					c.declareFun("fn_code", []string{"Int"}, "Int")
